@@ -9,6 +9,10 @@
 //!            contents shorter than / equal to / longer than the maximum width, a message of
 //!            varying length; a systematic block (templates × 5 levels × lengths around the
 //!            limit) on every run plus random patterns
+//!   planp    like plan, every appender using a given pattern (nested / width parameters, a message
+//!            with a newline in the middle) instead of the fixed one: the REAL ConsoleAppender and its
+//!            WriterLock / LineWriter path under such patterns
+//!   fsize    one appender whose target is a file limited by RLIMIT_FSIZE: the stream fails after N bytes
 //!   plan     like console, but the child gets a PLAN: several appenders (target, tty_only, builder
 //!            call order / config deserializer), built in the given order, each then appending one
 //!            record per level; stdout and stderr independently a pty or a pipe
@@ -124,8 +128,20 @@ fn gen_chunks(rng: &mut Rng, depth: u32, max_depth: u32, out: &mut Vec<String>) 
     }
 }
 
-const MSG_ALPHABET: &[&str] = &["a", "b", "c", "d", "e", "f", "g", "h", "0", "1", " ", "é", "→", "\u{1F600}"];
+const MSG_ALPHABET: &[&str] = &["a", "b", "c", "d", "e", "f", "g", "h", "0", "1", " ", "é", "→", "\u{1F600}", "m", ";", "["];
 const FILLS: &[char] = &[' ', ' ', '*', '.', '_', '0', '#', 'é', '→'];
+/// content that carries ESC bytes itself (a logged string with colour codes, a stray ESC)
+const ESC_PIECES: &[&str] = &["\u{1b}", "\u{1b}[0m", "\u{1b}[31m", "\u{1b}[", "x\u{1b}y"];
+
+#[derive(Clone, Copy)]
+struct FOpts {
+    /// ESC may occur in text and as a fill character
+    esc: bool,
+    /// every minimum width ≤ its maximum width
+    ordered: bool,
+    /// `{D(..)}`, `{R(..)}`, `{nosuch}` may occur
+    extras: bool,
+}
 
 fn level_name_len(lvl: u8) -> usize {
     match lvl {
@@ -136,16 +152,22 @@ fn level_name_len(lvl: u8) -> usize {
 
 /// chunk list with parameters on groups; returns the (rough) number of characters it renders,
 /// which the caller uses to aim maximum widths below, at and above the content length
-fn gen_fchunks(rng: &mut Rng, depth: u32, max_depth: u32, lvl: u8, msg_len: usize, out: &mut Vec<String>) -> usize {
+fn gen_fchunks(rng: &mut Rng, depth: u32, max_depth: u32, lvl: u8, msg_len: usize, o: FOpts, out: &mut Vec<String>) -> usize {
     let items = rng.range(if depth == 0 { 1 } else { 0 }, 3);
     let mut total = 0usize;
     for _ in 0..items {
         let r = rng.below(12);
         if (r < 5 || (depth == 0 && r < 9)) && depth < max_depth {
             let highlight = rng.chance(2, 3);
+            // a plain group may also be a `{D(..)}` (kept in this build) or `{R(..)}` (dropped) group
+            let plain_kind = if !highlight && o.extras && rng.chance(1, 3) {
+                if rng.chance(1, 2) { "D" } else { "R" }
+            } else {
+                "G"
+            };
             let at = out.len();
             out.push(String::new());
-            let inner = gen_fchunks(rng, depth + 1, max_depth, lvl, msg_len, out);
+            let inner = gen_fchunks(rng, depth + 1, max_depth, lvl, msg_len, o, out);
             out.push("E".to_owned());
             let with_params = rng.chance(if highlight { 3 } else { 9 }, if highlight { 4 } else { 10 });
             let mut rendered = inner;
@@ -153,7 +175,7 @@ fn gen_fchunks(rng: &mut Rng, depth: u32, max_depth: u32, lvl: u8, msg_len: usiz
                 if highlight {
                     "H".to_owned()
                 } else {
-                    "G/-/l/-/-".to_owned()
+                    format!("{}/-/l/-/-", plain_kind)
                 }
             } else {
                 let near = |rng: &mut Rng| -> usize {
@@ -168,8 +190,11 @@ fn gen_fchunks(rng: &mut Rng, depth: u32, max_depth: u32, lvl: u8, msg_len: usiz
                     }
                 };
                 let max_w = if rng.chance(4, 5) { Some(near(rng)) } else { None };
-                let min_w = if rng.chance(1, 2) { Some(near(rng)) } else { None };
-                let fill = *rng.pick(FILLS);
+                let mut min_w = if rng.chance(1, 2) { Some(near(rng)) } else { None };
+                if let (true, Some(m), Some(mx)) = (o.ordered, min_w, max_w) {
+                    min_w = Some(m.min(mx));
+                }
+                let fill = if o.esc && rng.chance(1, 6) { '\u{1b}' } else { *rng.pick(FILLS) };
                 let right = rng.chance(1, 2);
                 if let Some(m) = min_w {
                     rendered = rendered.max(m);
@@ -179,7 +204,7 @@ fn gen_fchunks(rng: &mut Rng, depth: u32, max_depth: u32, lvl: u8, msg_len: usiz
                 }
                 format!(
                     "{}/{}/{}/{}/{}",
-                    if highlight { "H" } else { "G" },
+                    if highlight { "H" } else { plain_kind },
                     if fill == ' ' { "-".to_owned() } else { format!("{:x}", fill as u32) },
                     if right { "r" } else { "l" },
                     enc_opt(min_w, |m| m.to_string()),
@@ -187,18 +212,21 @@ fn gen_fchunks(rng: &mut Rng, depth: u32, max_depth: u32, lvl: u8, msg_len: usiz
                 )
             };
             out[at] = tok;
-            total += rendered;
+            total += if plain_kind == "R" { rendered.saturating_sub(inner.min(rendered)) } else { rendered };
         } else if r < 7 {
             out.push("M".to_owned());
             total += msg_len;
         } else if r < 8 {
             out.push("L".to_owned());
             total += level_name_len(lvl);
+        } else if o.extras && r == 8 && rng.chance(1, 3) {
+            out.push("U".to_owned());
+            total += 35;
         } else {
             let len = rng.range(1, 5);
             let mut s = String::new();
             for _ in 0..len {
-                let t: &&str = rng.pick(TEXT_ALPHABET);
+                let t: &&str = if o.esc && rng.chance(1, 4) { rng.pick(ESC_PIECES) } else { rng.pick(TEXT_ALPHABET) };
                 s.push_str(t);
             }
             total += s.chars().count();
@@ -359,6 +387,100 @@ pub fn gen(rng: &mut Rng, n: usize, thorough: bool, emit: &mut dyn FnMut(String)
             emit(plan_line(*env, rng.chance(1, 2), rng.chance(1, 2), &format!("{},{}", a, b)));
         }
     }
+    // 2c. environment values outside the quantifier: e = "", 00, f = "false" (all "some other
+    //     string" for the code) and x = a value that is not valid Unicode (treated as unset)
+    {
+        let extra = ["e", "00", "f", "x"];
+        let others: Vec<[&str; 2]> = if thorough {
+            let mut v = vec![];
+            for a in ENV_VALS {
+                for b in ENV_VALS {
+                    v.push([a, b]);
+                }
+            }
+            v
+        } else {
+            vec![["-", "-"], ["1", "-"], ["-", "1"], ["0", "1"]]
+        };
+        for pos in 0..3 {
+            for x in extra {
+                for rest in &others {
+                    let mut env = ["-"; 3];
+                    let mut it = rest.iter();
+                    for (i, slot) in env.iter_mut().enumerate() {
+                        *slot = if i == pos { x } else { *it.next().unwrap() };
+                    }
+                    for tty in bools {
+                        if thorough || tty || pos != 1 {
+                            emit(plan_line(env, tty, !tty, if tty { "o0a" } else { "o1b,e0a" }));
+                        }
+                    }
+                }
+            }
+        }
+        emit(plan_line(["x", "x", "x"], true, true, "o0a"));
+        emit(plan_line(["e", "e", "e"], true, true, "o0a"));
+    }
+    // 2d. config documents that leave default-valued keys out (call order d)
+    for tty_out in bools {
+        for tty_err in bools {
+            for items in ["o0d", "o1d", "e0d", "e1d", "e1d,o0d"] {
+                emit(plan_line(unset, tty_out, tty_err, items));
+            }
+        }
+    }
+    // 2e. the REAL appender with nested / width patterns and a newline inside the message
+    {
+        let pats = [
+            "H/-/l/-/5,M,E,T7c0a",                     // {h({m}):.5}|\n
+            "H/2a/r/3/5,M,E,T7c0a",                    // {h({m}):*>3.5}|\n
+            "G/-/l/-/3,H,M,E,E,T7c0a",                 // {({h({m})}):.3}|\n
+            "H/-/l/-/6,T5b,H/-/l/-/3,M,E,T5d,E,T0a",   // {h([{h({m}):.3}]):.6}\n
+            "H,L,T20,H/-/l/4/4,M,E,E,T0a",             // {h({l} {h({m}):4.4})}\n
+            "T3e,H/5f/l/12/-,M,T2f,L,E,T3c",           // >{h({m}/{l}):_<12}<   (no newline at the end)
+        ];
+        let msgs = ["ab\ncdefgh", "xy", ""];
+        let envs3: [[&str; 3]; 3] = [["-", "-", "-"], ["-", "-", "1"], ["1", "-", "-"]];
+        let plans = ["o0a,e0a", "e1b,o1c", "o1a"];
+        let mut k = 0usize;
+        for (pi, pat) in pats.iter().enumerate() {
+            for (mi, msg) in msgs.iter().enumerate() {
+                for (ei, env) in envs3.iter().enumerate() {
+                    for tty_out in bools {
+                        for (li, items) in plans.iter().enumerate() {
+                            k += 1;
+                            // quick: a Latin-square style selection (about 36 of the 324)
+                            if thorough || (pi + mi + ei + li + tty_out as usize) % 9 == 0 || k % 53 == 0 {
+                                emit(format!(
+                                    "planp\t{}\t{}\t{}\t{}\t{}\t{}\t{}\t{}",
+                                    env[0], env[1], env[2], enc_bool(tty_out), enc_bool(!tty_out), items, enc_str(msg), pat
+                                ));
+                            }
+                        }
+                    }
+                }
+            }
+        }
+        // a few random ordered, ESC-free patterns as well
+        for _ in 0..(if thorough { 60 } else { 8 }) {
+            let mut toks = vec![];
+            let o = FOpts { esc: false, ordered: true, extras: false };
+            gen_fchunks(rng, 0, 3, 1, 4, o, &mut toks);
+            toks.push("T0a".to_owned());
+            let tty_out = rng.chance(1, 2);
+            emit(format!(
+                "planp\t-\t-\t-\t{}\t{}\t{}\t{}\t{}",
+                enc_bool(tty_out), enc_bool(!tty_out), rng.pick(&plans), enc_str("m\nsg!"), enc_list(",", &toks)
+            ));
+        }
+    }
+    // 2f. a target stream that fails after N bytes (RLIMIT_FSIZE on a file)
+    for limit in [0usize, 1, 8, 9, 14, 18, 22, 23, 24, 40, 60, 98, 99, 100, 4096] {
+        emit(format!("fsize\t{}\to", limit));
+        if thorough || limit % 2 == 0 {
+            emit(format!("fsize\t{}\te", limit));
+        }
+    }
     // 3. highlight groups with width parameters, systematic: templates × level × message length
     //    around the limit (`W` in a template is the limit; the message has W-1, W, W+1 … characters)
     let templates: [(&str, usize); 12] = [
@@ -392,19 +514,20 @@ pub fn gen(rng: &mut Rng, n: usize, thorough: bool, emit: &mut dyn FnMut(String)
         let writer = if rng.chance(3, 4) { "ansi" } else { "simple" };
         let lvl = rng.range(1, 5);
         if k % 3 == 0 {
-            let max_depth = if thorough { 1 + (k as u32 % 6) } else { 1 + (k as u32 % 4) };
+            let max_depth = 1 + (k as u32 % 6);
             let mut toks = vec![];
             gen_chunks(rng, 0, max_depth, &mut toks);
             emit(format!("hl\t{}\t{}\t{}", writer, lvl, enc_list(",", &toks)));
         } else {
+            let o = FOpts { esc: k % 8 == 1, ordered: k % 2 == 0, extras: true };
             let msg_len = rng.range(0, 12) as usize;
             let mut msg = String::new();
             for _ in 0..msg_len {
-                let t: &&str = rng.pick(MSG_ALPHABET);
+                let t: &&str = if o.esc && rng.chance(1, 5) { rng.pick(ESC_PIECES) } else { rng.pick(MSG_ALPHABET) };
                 msg.push_str(t);
             }
             let mut toks = vec![];
-            gen_fchunks(rng, 0, 1 + (k as u32 % 3), lvl as u8, msg.chars().count(), &mut toks);
+            gen_fchunks(rng, 0, 1 + (k as u32 % 5), lvl as u8, msg.chars().count(), o, &mut toks);
             emit(format!("hlf\t{}\t{}\t{}\t{}", writer, lvl, enc_str(&msg), enc_list(",", &toks)));
         }
     }
@@ -495,17 +618,23 @@ fn pattern_of_tokens(toks: &[String]) -> Option<String> {
     for t in toks {
         let parts: Vec<&str> = t.split('/').collect();
         match parts[0] {
-            "H" | "G" if parts.len() == 1 || parts.len() == 5 => {
-                if parts[0] == "G" && parts.len() == 1 {
+            "H" | "G" | "D" | "R" if parts.len() == 1 || parts.len() == 5 => {
+                if parts[0] != "H" && parts.len() == 1 {
                     return None;
                 }
-                p.push_str(if parts[0] == "H" { "{h(" } else { "{(" });
+                p.push_str(match parts[0] {
+                    "H" => "{h(",
+                    "D" => "{D(",
+                    "R" => "{R(",
+                    _ => "{(",
+                });
                 let spec = if parts.len() == 5 { spec_text(&parts[1..])? } else { String::new() };
                 closers.push(format!("){}}}", spec));
             }
             "E" if parts.len() == 1 => p.push_str(&closers.pop()?),
             "L" if parts.len() == 1 => p.push_str("{l}"),
             "M" if parts.len() == 1 => p.push_str("{m}"),
+            "U" if parts.len() == 1 => p.push_str("{nosuch}"),
             _ => {
                 let bytes = dec_bytes(t.strip_prefix('T')?)?;
                 p.push_str(&String::from_utf8(bytes).ok()?);
@@ -574,12 +703,24 @@ fn pty_helper() -> Option<PathBuf> {
 
 fn valid_item(it: &str) -> bool {
     let b = it.as_bytes();
-    b.len() == 3 && (b[0] == b'o' || b[0] == b'e') && (b[1] == b'0' || b[1] == b'1') && (b'a'..=b'c').contains(&b[2])
+    b.len() == 3 && (b[0] == b'o' || b[0] == b'e') && (b[1] == b'0' || b[1] == b'1') && (b'a'..=b'd').contains(&b[2])
 }
 
 /// f = [NO_COLOR, CLICOLOR, CLICOLOR_FORCE, tty stdout?, tty stderr?], items = the plan
-fn exec_plan(f: &[&str], items: &str) -> String {
-    let ok_env = |s: &str| s == "-" || s == "0" || s == "1";
+/// the value a case's environment code stands for (`None` = the variable is removed)
+fn env_value(code: &str) -> Option<std::ffi::OsString> {
+    use std::os::unix::ffi::OsStringExt;
+    match code {
+        "-" => None,
+        "e" => Some("".into()),
+        "f" => Some("false".into()),
+        "x" => Some(std::ffi::OsString::from_vec(vec![0xff])),
+        other => Some(other.into()), // "0", "1", "00"
+    }
+}
+
+fn exec_plan(f: &[&str], items: &str, pattern: Option<(&str, &str)>) -> String {
+    let ok_env = |s: &str| ["-", "0", "1", "e", "00", "f", "x"].contains(&s);
     let ok_bool = |s: &str| s == "0" || s == "1";
     if !(f.len() == 5 && ok_env(f[0]) && ok_env(f[1]) && ok_env(f[2]) && ok_bool(f[3]) && ok_bool(f[4]))
         || !dec_list(',', items).iter().all(|it| valid_item(it))
@@ -597,11 +738,14 @@ fn exec_plan(f: &[&str], items: &str) -> String {
     let kind = |s: &str| if s == "1" { "tty" } else { "pipe" };
     let mut cmd = Command::new("python3");
     cmd.arg(&helper).arg(kind(f[3])).arg(kind(f[4])).arg("--").arg(&exe).args(["child", "c18", "plan", items]);
+    if let Some((msg, toks)) = pattern {
+        cmd.arg(toks).arg(msg);
+    }
     // a controlled environment: the three variables exactly as the case says, nothing inherited
     for (var, val) in VARS.iter().zip(f[0..3].iter()) {
         cmd.env_remove(var);
-        if *val != "-" {
-            cmd.env(var, val);
+        if let Some(v) = env_value(val) {
+            cmd.env(var, v);
         }
     }
     cmd.stdin(std::process::Stdio::null());
@@ -620,6 +764,41 @@ fn exec_plan(f: &[&str], items: &str) -> String {
     }
 }
 
+static FSIZE_SEQ: std::sync::atomic::AtomicUsize = std::sync::atomic::AtomicUsize::new(0);
+
+/// one unrestricted appender, colour forced, whose target descriptor is a file that accepts `limit`
+/// bytes (RLIMIT_FSIZE in the child, SIGXFSZ ignored) and fails every later write
+fn exec_fsize(limit: &str, tg: &str) -> String {
+    if limit.parse::<u64>().is_err() || !(tg == "o" || tg == "e") {
+        return "bad-case".to_owned();
+    }
+    let exe = match std::env::current_exe() {
+        Ok(e) => e,
+        Err(_) => return "INFRA:current_exe".to_owned(),
+    };
+    let dir = std::env::var("VERIF_SCRATCH").map(PathBuf::from).unwrap_or_else(|_| std::env::temp_dir());
+    let _ = std::fs::create_dir_all(&dir);
+    let n = FSIZE_SEQ.fetch_add(1, std::sync::atomic::Ordering::SeqCst);
+    let path = dir.join(format!("c18_fsize_{}_{}", std::process::id(), n));
+    let mut cmd = Command::new(&exe);
+    cmd.args(["child", "c18", "fsize", limit]).arg(&path).arg(tg);
+    for var in VARS.iter() {
+        cmd.env_remove(var);
+    }
+    cmd.env("CLICOLOR_FORCE", "1");
+    cmd.stdin(std::process::Stdio::null());
+    let out = cmd.output();
+    let bytes = std::fs::read(&path).unwrap_or_default();
+    let _ = std::fs::remove_file(&path);
+    match out {
+        Ok(o) => match o.status.code() {
+            Some(rc) => format!("rc={} file={}", rc, enc_bytes(&bytes)),
+            None => "INFRA:child-killed-by-signal".to_owned(),
+        },
+        Err(_) => "INFRA:child-not-runnable".to_owned(),
+    }
+}
+
 /// the old single-appender case: `<target> <tty_only>` = the plan `<o|e><tty_only>a`
 fn exec_console(f: &[&str]) -> String {
     let t = match f[5] {
@@ -630,7 +809,7 @@ fn exec_console(f: &[&str]) -> String {
     if !(f[6] == "0" || f[6] == "1") {
         return "bad-case".to_owned();
     }
-    exec_plan(&f[0..5], &format!("{}{}a", t, f[6]))
+    exec_plan(&f[0..5], &format!("{}{}a", t, f[6]), None)
 }
 
 pub fn exec(fields: &[&str]) -> String {
@@ -642,7 +821,9 @@ pub fn exec(fields: &[&str]) -> String {
             None => "bad-case".to_owned(),
         },
         [kind, rest @ ..] if *kind == "console" && rest.len() == 7 => exec_console(rest),
-        ["plan", nc, cc, cf, to, te, items] => exec_plan(&[nc, cc, cf, to, te], items),
+        ["plan", nc, cc, cf, to, te, items] => exec_plan(&[nc, cc, cf, to, te], items, None),
+        ["planp", nc, cc, cf, to, te, items, msg, toks] => exec_plan(&[nc, cc, cf, to, te], items, Some((msg, toks))),
+        ["fsize", limit, tg] => exec_fsize(limit, tg),
         _ => "bad-case".to_owned(),
     }
 }
@@ -652,11 +833,24 @@ pub fn exec(fields: &[&str]) -> String {
 // exit code 0 = all five appends returned Ok, 3 = panic, 4 = an append returned Err, 2 = usage
 // ---------------------------------------------------------------------------------------------
 pub fn child(args: &[String]) -> i32 {
-    let items: Vec<String> = match args {
-        [p, items] if p == "plan" => dec_list(',', items),
-        [t, b] if (t == "stdout" || t == "stderr") && (b == "0" || b == "1") => {
-            vec![format!("{}{}a", if t == "stdout" { "o" } else { "e" }, b)]
+    if let [k, limit, path, tg] = args {
+        if k == "fsize" {
+            return child_fsize(limit, path, tg);
         }
+    }
+    let (items, pattern, msg): (Vec<String>, String, String) = match args {
+        [p, items] if p == "plan" => (dec_list(',', items), CHILD_PATTERN.to_owned(), "msg".to_owned()),
+        [p, items, toks, msg] if p == "plan" => {
+            match (pattern_of_tokens(&dec_list(',', toks)), dec_str(msg)) {
+                (Some(pat), Some(m)) => (dec_list(',', items), pat, m),
+                _ => return 2,
+            }
+        }
+        [t, b] if (t == "stdout" || t == "stderr") && (b == "0" || b == "1") => (
+            vec![format!("{}{}a", if t == "stdout" { "o" } else { "e" }, b)],
+            CHILD_PATTERN.to_owned(),
+            "msg".to_owned(),
+        ),
         _ => return 2,
     };
     if !items.iter().all(|it| valid_item(it)) {
@@ -672,7 +866,7 @@ pub fn child(args: &[String]) -> i32 {
             let appender: Box<dyn Append> = match b[2] {
                 b'a' => Box::new(
                     ConsoleAppender::builder()
-                        .encoder(Box::new(PatternEncoder::new(CHILD_PATTERN)))
+                        .encoder(Box::new(PatternEncoder::new(&pattern)))
                         .target(target)
                         .tty_only(tty_only)
                         .build(),
@@ -681,18 +875,26 @@ pub fn child(args: &[String]) -> i32 {
                     ConsoleAppender::builder()
                         .tty_only(tty_only)
                         .target(target)
-                        .encoder(Box::new(PatternEncoder::new(CHILD_PATTERN)))
+                        .encoder(Box::new(PatternEncoder::new(&pattern)))
                         .build(),
                 ),
-                _ => {
-                    // through the registered `console` deserializer, as a config file would
-                    let doc = format!(
-                        r#"{{"kind":"console","target":"{}","tty_only":{},"encoder":{{"kind":"pattern","pattern":"{}"}}}}"#,
-                        if b[0] == b'o' { "stdout" } else { "stderr" },
-                        tty_only,
-                        CHILD_PATTERN
-                    );
-                    match deserialize_console(&doc) {
+                order => {
+                    // through the registered `console` deserializer, as a config file would;
+                    // order d leaves out the keys whose value is the default
+                    let omit = order == b'd';
+                    let mut doc = serde_json::Map::new();
+                    doc.insert("kind".into(), "console".into());
+                    if !(omit && b[0] == b'o') {
+                        doc.insert("target".into(), (if b[0] == b'o' { "stdout" } else { "stderr" }).into());
+                    }
+                    if !(omit && !tty_only) {
+                        doc.insert("tty_only".into(), tty_only.into());
+                    }
+                    let mut enc = serde_json::Map::new();
+                    enc.insert("kind".into(), "pattern".into());
+                    enc.insert("pattern".into(), pattern.clone().into());
+                    doc.insert("encoder".into(), serde_json::Value::Object(enc));
+                    match deserialize_console(&serde_json::Value::Object(doc).to_string()) {
                         Some(a) => a,
                         None => return true,
                     }
@@ -705,11 +907,62 @@ pub fn child(args: &[String]) -> i32 {
         for appender in &built {
             for lvl in [Level::Error, Level::Warn, Level::Info, Level::Debug, Level::Trace] {
                 if appender
-                    .append(&Record::builder().level(lvl).target("t").args(format_args!("msg")).build())
+                    .append(&Record::builder().level(lvl).target("t").args(format_args!("{}", msg)).build())
                     .is_err()
                 {
                     failed = true;
                 }
+            }
+        }
+        failed
+    }));
+    match r {
+        Ok(false) => 0,
+        Ok(true) => 4,
+        Err(_) => 3,
+    }
+}
+
+/// `child c18 fsize <limit> <path> <o|e>`: the target descriptor becomes a file that accepts
+/// `limit` bytes; exit code 0 = every append Ok, 4 = some append returned Err, 3 = panic
+fn child_fsize(limit: &str, path: &str, tg: &str) -> i32 {
+    let limit: u64 = match limit.parse() {
+        Ok(l) => l,
+        Err(_) => return 2,
+    };
+    let (fd, target) = match tg {
+        "o" => (libc::STDOUT_FILENO, Target::Stdout),
+        "e" => (libc::STDERR_FILENO, Target::Stderr),
+        _ => return 2,
+    };
+    let c = match std::ffi::CString::new(path) {
+        Ok(c) => c,
+        Err(_) => return 2,
+    };
+    unsafe {
+        let f = libc::open(c.as_ptr(), libc::O_WRONLY | libc::O_CREAT | libc::O_TRUNC, 0o600);
+        if f < 0 || libc::dup2(f, fd) < 0 {
+            return 2;
+        }
+        libc::close(f);
+        libc::signal(libc::SIGXFSZ, libc::SIG_IGN);
+        let lim = libc::rlimit { rlim_cur: limit as libc::rlim_t, rlim_max: limit as libc::rlim_t };
+        if libc::setrlimit(libc::RLIMIT_FSIZE, &lim) != 0 {
+            return 2;
+        }
+    }
+    let r = guarded(AssertUnwindSafe(|| {
+        let appender = ConsoleAppender::builder()
+            .encoder(Box::new(PatternEncoder::new(CHILD_PATTERN)))
+            .target(target)
+            .build();
+        let mut failed = false;
+        for lvl in [Level::Error, Level::Warn, Level::Info, Level::Debug, Level::Trace] {
+            if appender
+                .append(&Record::builder().level(lvl).target("t").args(format_args!("msg")).build())
+                .is_err()
+            {
+                failed = true;
             }
         }
         failed
